@@ -536,7 +536,7 @@ U("thpool.free", src="units/thpool_unit.c", harness="h_pool_free", enforce="m_th
   replace=["wait_pool", "v_cond_destroy", "v_mutex_destroy", "m_queue_free", "m_list_free"], props=["C06", "C04"], contract_files=THP, native=False, timeout=300, min_obligations=20,
   unwindset={"m_thpool_free_wrapped_for_contract_checking.0": 7})
 U("thpool.clear", src="units/thpool_unit.c", harness="h_pool_clear", enforce="m_thpool_clear", defines=["V_POOL_CLEAR"], logctx="THPOOL",
-  replace=["v_mutex_lock", "v_mutex_unlock", "m_queue_clear"], props=["C06", "C04"], contract_files=THP, native=False, timeout=300, min_obligations=20)
+  replace=["v_mutex_lock", "v_mutex_unlock", "m_queue_clear", "m_queue_len"], props=["C06", "C04"], contract_files=THP, native=False, timeout=300, min_obligations=20)
 
 _more("C02", "Recipient selection of a publish: tell_subscribers() (loop contract over an abstract module-table iterator, any number of modules) examines every module once, treats RUNNING and PAUSED as "
       "eligible, looks a subscription up for exactly the eligible ones and tells exactly the eligible-and-subscribed ones once with the matched subscription; fetch_sub() (loop contract, any number of "
@@ -563,3 +563,9 @@ PROPS["C08"]["not_decided"] = ["pill handling for batches of more than 3 message
 # reference-counting code make m_mem_unref/mem_dtor mutually recursive for CBMC; the registered unit is the real-code one, ps.subscribe_real, with recursion unwound 3 deep)
 U("ps.subscribe_real", src="units/ps_real.c", harness="h_subscribe_real", plain=True, logctx="CORE", replace_calls={"memcpy": "v_memcpy_regex"},
   props=["C09", "C04"], contract_files=[], native=True, timeout=600, min_obligations=20, unwind=3, unwindset={"v_was_freed.0": 8, "v_strncmp.0": 12, "v_strlen.0": 12, "v_base_init.0": 8, "v_inputs_init.0": 8})
+U("ps.tell_system", src="units/ps_unit.c", harness="h_tell_system", enforce="tell_system_pubsub_msg", defines=["V_ROUTE_UNIT"], logctx="CORE",
+  replace=["tell_if", "tell_subscribers", "m_map_iterate"], props=["C19", "C08", "C02", "C04"], contract_files=SUBSC, native=False, timeout=300, min_obligations=20)
+U("ps.publish", src="units/ps_unit.c", harness="h_publish", enforce="m_mod_ps_publish", defines=["V_ROUTE_UNIT", "V_PUBLISH_UNIT"], logctx="CORE",
+  replace=["m_ctx", "m_mod_is", "fetch_ms", "v_strlen", "v_strncmp", "tell_if", "tell_subscribers", "m_map_iterate"], props=["C02", "C15", "C18", "C04"], contract_files=SUBSC, native=False, timeout=300, min_obligations=20)
+U("ps.tell", src="units/ps_unit.c", harness="h_tell", enforce="m_mod_ps_tell", defines=["V_ROUTE_UNIT", "V_TELL_UNIT"], logctx="CORE",
+  replace=["m_ctx", "m_mod_is", "fetch_ms", "tell_if", "tell_subscribers", "m_map_iterate"], props=["C02", "C14", "C18", "C04"], contract_files=SUBSC, native=False, timeout=300, min_obligations=20)
